@@ -209,6 +209,16 @@ def _weights(rng, n, kind):
     return w
 
 
+def _extreme_factor(rng):
+    """Common factor of a weight vector: 1e-15 .. 1e12, with the ends over-represented."""
+    r = rng.random()
+    if r < 0.25:
+        return rng.choice([1e-15, 1e-13, 1e-12, 1e-11, 1e-10, 1e-9])
+    if r < 0.35:
+        return rng.choice([1e9, 1e12])
+    return _log_uniform(rng, 1e-15, 1e12)
+
+
 def _case(ctx, index, G, uni, table):
     rng = ctx.rng
     n = rng.choice([1, 2, 2, 3, 3, 4, 5, 6])
@@ -263,7 +273,15 @@ def _case(ctx, index, G, uni, table):
                 rho = rng.choice([1, 2, 5])
             if (j == 2 and kind != 'zero' and rng.random() < 0.25) or rng.random() < 0.03:
                 rho = rng.choice([0.0, 0.0, 0])
-            apps.append({'weights': _weights(rng, nm, kind), 'dtype': 'int' if kind == 'ints' else 'float',
+            wts = _weights(rng, nm, kind)
+            if kind != 'ints' and rng.random() < 0.25:
+                # the same proportions as absolute amounts of a very small / very large sample: only an exactly
+                # zero total weight is a vacuum
+                f = _extreme_factor(rng)
+                wts = [x * f for x in wts]
+            if rho != 0 and rng.random() < 0.12:
+                rho = _log_uniform(rng, 1e-15, 1e-3)       # residual gas: tiny, not zero
+            apps.append({'weights': wts, 'dtype': 'int' if kind == 'ints' else 'float',
                          'density': rho, 'density_positional': rng.random() < 0.2})
         w['apps'] = apps
     return {'index': index, 'materials': mats, 'order': order, 'wavelengths': wargs}
@@ -450,6 +468,7 @@ def _run_block(ctx, case, mats, w, sig, extra):
                 continue
             vacuum = (sum(app['weights']) == 0) or (rho == 0)
             sig.append((w['kind'], len(w['values']), tuple(x == 0 for x in app['weights']), rho == 0, app['dtype']))
+            _count_extremes(ctx, app['weights'], rho)
             if vacuum:
                 ctx.count('vacuum.zero_weight' if sum(app['weights']) == 0 else 'vacuum.zero_density')
                 ctx.evaluated(2, 'vacuum')
@@ -489,9 +508,33 @@ def _run_block(ctx, case, mats, w, sig, extra):
             violation('%s: the wavelength argument was modified' % label, symptom='mutated-argument')
 
 
-def _compare(ctx, violation, what, g, x, case, app, wl, rho):
+def _count_extremes(ctx, weights, rho):
+    top = max(weights)
+    if 0 < top < 1e-8:
+        ctx.count('extreme.all_weights_below_1e-8')
+    if top > 1e9:
+        ctx.count('extreme.weights_above_1e9')
+    if 0 < rho < 1e-8:
+        ctx.count('extreme.density_below_1e-8')
+
+
+def _attribute(case, app, wl, rho, x, j):
     import numpy as np
     from periodictable import nsf
+    diag = {}
+    try:
+        kw = {} if wl is None else {'wavelength': wl}
+        alt = nsf.neutron_sld(_model_dict(case, app['weights']), density=rho, **kw)
+        a = np.array([np.asarray(v, dtype=float).reshape(-1) for v in alt])
+        diag['direct_via_multiset_dict'] = a[:, j].tolist()
+        diag['formula_arithmetic_agrees_with_multiset'] = bool(np.allclose(a, x, rtol=1e-9, atol=0))
+    except Exception as exc:
+        diag['direct_via_multiset_dict'] = 'raised %s: %s' % (type(exc).__name__, exc)
+    return diag
+
+
+def _compare(ctx, violation, what, g, x, case, app, wl, rho):
+    import numpy as np
     ctx.evaluated(3, 'value')
     with np.errstate(all='ignore'):
         scale = np.abs(x[0]) + np.abs(x[1])
@@ -512,15 +555,10 @@ def _compare(ctx, violation, what, g, x, case, app, wl, rho):
         return True
     i, j = [int(v[0]) for v in np.nonzero(~ok)]
     # attribution: the same sum from the generator's multisets, without Formula arithmetic
-    diag = {}
-    try:
-        kw = {} if wl is None else {'wavelength': wl}
-        alt = nsf.neutron_sld(_model_dict(case, app['weights']), density=rho, **kw)
-        a = np.array([np.asarray(v, dtype=float).reshape(-1) for v in alt])
-        diag['direct_via_multiset_dict'] = a[:, j].tolist()
-        diag['formula_arithmetic_agrees_with_multiset'] = bool(np.allclose(a, x, rtol=1e-9, atol=0))
-    except Exception as exc:
-        diag['direct_via_multiset_dict'] = 'raised %s: %s' % (type(exc).__name__, exc)
+    if case is None:
+        diag = dict(app)                      # history stages bring their own attribution
+    else:
+        diag = _attribute(case, app, wl, rho, x, j)
     violation('%s: %s differs: calculator %r, direct %r (rel. error %.3g; wavelength entry %d)'
               % (what, NAMES[i], float(g[i, j]), float(x[i, j]), float(relerr[i, j]), j),
               symptom='value', route='composite', output=NAMES[i], got=g[:, j].tolist(), want=x[:, j].tolist(), **diag)
